@@ -118,3 +118,123 @@ Proof.
   assert (Hl : length items = length (shape_of p)) by (unfold shape_of; rewrite map_length; exact H5).
   rewrite (norm_index_slices_empty strict true items _ H4 Hl Hc). reflexivity.
 Qed.
+
+(* ---------- integers, ellipsis, too few indices ---------- *)
+Definition int_ok (it : item) (n : Z) : Prop :=
+  match it with IInt i => (- n <= i < n)%Z | ISlice _ _ _ => True | _ => False end.
+Definition to_slice (it : item) (n : Z) : item :=
+  match it with
+  | IInt i => let i' := (if i <? 0 then i + n else i)%Z in ISlice (Some i') (Some (i' + 1)%Z) None
+  | _ => it
+  end.
+
+Lemma norm_ints_mixed (strict : bool) (l : list item) (shape : list Z) :
+  Forall2 int_ok l shape ->
+  norm_ints strict true l shape = Ok (map2 to_slice l shape) /\
+  forallb is_slice (map2 to_slice l shape) = true /\
+  existsb is_ell l = false /\ length (map2 to_slice l shape) = length shape /\ length l = length shape.
+Proof.
+  induction 1 as [|it n l shape Hit Hrest IH].
+  - repeat split; reflexivity.
+  - destruct IH as (I1 & I2 & I3 & I4 & I5). destruct it as [i|a b c| |]; cbn [int_ok] in Hit; try contradiction.
+    + rewrite norm_int_in_range by exact Hit. rewrite I1. cbn [bind map2 to_slice forallb is_slice existsb is_ell length].
+      rewrite I2, I3, I4, I5. repeat split; reflexivity.
+    + cbn [norm_ints]. rewrite I1. cbn [bind map2 to_slice forallb is_slice existsb is_ell length].
+      rewrite I2, I3, I4, I5. repeat split; reflexivity.
+Qed.
+
+(* exactly ndim entries, each an in-range integer or a slice *)
+Lemma norm_index_full (strict : bool) (items : list item) (shape : list Z) :
+  Forall2 int_ok items shape ->
+  empty_slice_check (map2 to_slice items shape) shape = false ->
+  norm_index strict (ETuple items) shape true = Ok (map2 to_slice items shape).
+Proof.
+  intros Hok Hc. destruct (norm_ints_mixed strict items shape Hok) as (H1 & H2 & H3 & H4 & Hl).
+  unfold norm_index, norm_index_list, items_of. rewrite Hl, Nat.ltb_irrefl. cbn [andb]. rewrite H3. cbn [bind].
+  rewrite H1. cbn [bind]. rewrite Hc, (slices_no_new _ H2), H4, Nat.ltb_irrefl. reflexivity.
+Qed.
+
+(* an Ellipsis stands for as many full slices as are needed to reach ndim entries *)
+Lemma find_ell_app (pre post : list item) : existsb is_ell pre = false ->
+  find_ell (pre ++ IEll :: post) = length pre.
+Proof.
+  induction pre as [|it pre IH]; intros Hp; [reflexivity|].
+  cbn [existsb] in Hp. apply orb_false_iff in Hp. destruct Hp as [H1 H2].
+  cbn [app find_ell length]. rewrite H1, IH by exact H2. reflexivity.
+Qed.
+Lemma filter_ell_none (l : list item) : existsb is_ell l = false -> filter is_ell l = [].
+Proof.
+  induction l as [|it l IH]; intros Hl; [reflexivity|].
+  cbn [existsb] in Hl. apply orb_false_iff in Hl. destruct Hl as [H1 H2].
+  cbn [filter]. rewrite H1. apply IH. exact H2.
+Qed.
+Lemma repeat_full_no_ell (k : nat) : existsb is_ell (repeat full_slice k) = false.
+Proof. induction k as [|k IH]; [reflexivity|]. cbn [repeat existsb]. exact IH. Qed.
+Lemma norm_index_ellipsis (strict its : bool) (pre post : list item) (shape : list Z) :
+  existsb is_ell pre = false -> existsb is_ell post = false ->
+  (length pre + length post <= length shape)%nat ->
+  norm_index strict (ETuple (pre ++ IEll :: post)) shape its =
+  norm_index strict (ETuple (pre ++ repeat full_slice (length shape - length pre - length post) ++ post)) shape its.
+Proof.
+  intros Hp Hq Hl. unfold norm_index, norm_index_list, items_of.
+  assert (He : existsb is_ell (pre ++ IEll :: post) = true).
+  { rewrite existsb_app. cbn [existsb is_ell]. rewrite orb_true_r. reflexivity. }
+  rewrite He. cbn [negb]. rewrite andb_false_r. cbv iota. rewrite He.
+  rewrite filter_app. cbn [filter is_ell]. rewrite (filter_ell_none pre Hp), (filter_ell_none post Hq).
+  cbn [app length]. rewrite (Nat.ltb_irrefl 1).
+  rewrite find_ell_app by exact Hp.
+  rewrite firstn_app, Nat.sub_diag, firstn_all. cbn [firstn]. rewrite app_nil_r.
+  replace (skipn (S (length pre)) (pre ++ IEll :: post)) with post.
+  2:{ rewrite skipn_app. rewrite skipn_all2 by lia. replace (S (length pre) - length pre)%nat with 1%nat by lia.
+      reflexivity. }
+  rewrite app_length. cbn [length].
+  replace (Z.to_nat (Z.of_nat (length shape) - Z.of_nat (length pre + S (length post)) + 1))
+    with (length shape - length pre - length post)%nat by lia.
+  set (l2 := pre ++ repeat full_slice (length shape - length pre - length post) ++ post).
+  assert (Hl2 : length l2 = length shape).
+  { unfold l2. rewrite !app_length, repeat_length. lia. }
+  assert (He2 : existsb is_ell l2 = false).
+  { unfold l2. rewrite !existsb_app, Hp, Hq. cbn [orb]. rewrite orb_false_r. apply repeat_full_no_ell. }
+  rewrite Hl2, Nat.ltb_irrefl. cbn [andb]. rewrite He2. reflexivity.
+Qed.
+(* fewer indices than axes (no Ellipsis): filled up from the right *)
+Lemma norm_index_too_few (strict its : bool) (items : list item) (shape : list Z) :
+  existsb is_ell items = false -> (length items < length shape)%nat ->
+  norm_index strict (ETuple items) shape its =
+  norm_index strict (ETuple (items ++ repeat full_slice (length shape - length items))) shape its.
+Proof.
+  intros He Hl.
+  transitivity (norm_index strict (ETuple (items ++ IEll :: [])) shape its).
+  - unfold norm_index, norm_index_list, items_of.
+    replace (length items <? length shape)%nat with true by (symmetry; apply Nat.ltb_lt; exact Hl).
+    rewrite He. cbn [negb andb].
+    assert (Hn : (length (items ++ [IEll]) <? length shape)%nat && negb (existsb is_ell (items ++ [IEll])) = false).
+    { rewrite existsb_app. cbn [existsb is_ell]. rewrite orb_true_r. cbn [negb]. apply andb_false_r. }
+    rewrite Hn. reflexivity.
+  - rewrite norm_index_ellipsis by (auto; cbn [length]; lia). cbn [length]. rewrite Nat.sub_0_r, app_nil_r.
+    reflexivity.
+Qed.
+
+(* once the index expression is normalised to good slices, every axis is cut independently *)
+Lemma getitem_after_norm (strict : bool) (p : list Raxis) (e : iexpr) (idx : list item) :
+  norm_index strict e (shape_of p) true = Ok idx ->
+  Forall valid p -> Forall2 good_item p idx -> empty_slice_check idx (shape_of p) = false ->
+  getitem_expr strict p e = Ok (map2 sub_item p idx) /\ Forall valid (map2 sub_item p idx).
+Proof.
+  intros Hn Hv Hg Hc. destruct (getitem_nd_parts p idx Hv Hg) as (H1 & H2 & H3 & H4 & H5).
+  split; [|exact H3]. unfold getitem_expr. rewrite Hn. cbn [bind]. rewrite H1. cbn [bind].
+  assert (Hl : length idx = length (shape_of p)) by (unfold shape_of; rewrite map_length; exact H5).
+  rewrite (norm_index_slices strict false idx _ H4 Hl Hc). cbn [bind]. rewrite H2. cbn [bind].
+  apply mk_part_valid. exact H3.
+Qed.
+(* p[i_1, ..., i_d], every entry an in-range integer or a slice *)
+Lemma getitem_ints_and_slices (strict : bool) (p : list Raxis) (items : list item) :
+  Forall valid p -> Forall2 int_ok items (shape_of p) ->
+  Forall2 good_item p (map2 to_slice items (shape_of p)) ->
+  empty_slice_check (map2 to_slice items (shape_of p)) (shape_of p) = false ->
+  getitem strict p (ETuple items) = Ok (map2 sub_item p (map2 to_slice items (shape_of p))) /\
+  Forall valid (map2 sub_item p (map2 to_slice items (shape_of p))).
+Proof.
+  intros Hv Hok Hg Hc. unfold getitem. apply getitem_after_norm; auto.
+  apply norm_index_full; assumption.
+Qed.
